@@ -54,6 +54,35 @@ var mSrcAddrs = []string{"git::https://example.com/p0.git", "git::https://exampl
 	// percent-escaped dot segments are literal sub-path characters: the lookup stays inside the package (seed C18-d)
 	"git::https://example.com/p0.git//%2e%2e/%2e%2e", "git::https://example.com/p1.git//m/%2E%2E/%2e%2e/%2e%2e/x"}
 
+// relative paths for derived lookup addresses: 0..8 leading "../", then nothing, one name (even depths)
+// or two names (depths 1 and 8)
+type derivRel struct {
+	rel string
+	loc sourceaddrs.LocalSource
+}
+
+var bundleDerivRels = func() []derivRel {
+	var out []derivRel
+	for ups := 0; ups <= 8; ups++ {
+		tails := [][]string{nil}
+		if ups%2 == 0 {
+			tails = append(tails, []string{"x"})
+		}
+		if ups == 1 || ups == 8 {
+			tails = append(tails, []string{"m", "n"})
+		}
+		for _, tail := range tails {
+			rel := canonicalRel(ups, tail)
+			loc, err := sourceaddrs.ParseLocalSource(rel)
+			if err != nil {
+				panic("harness: relative path " + rel + ": " + err.Error())
+			}
+			out = append(out, derivRel{rel, loc})
+		}
+	}
+	return out
+}()
+
 func genManifest(r *Rng) *jManifest {
 	m := &jManifest{Format: 1}
 	if r.Chance(8) {
@@ -196,7 +225,7 @@ func openDirSafe(dir string) (b *sourcebundle.Bundle, err error, pan interface{}
 
 func init() {
 	lanes["bundle"] = func(cfg *Config, rep *Report) {
-		rep.Rule = "manifest documents generated field-wise (format number, 0..3 packages over 18 directory names (one a string prefix of another) incl. '..', '.', '', names with separators, 10 address strings incl. invalid ones and two spellings of one package, metadata; 0..2 registry packages x 0..2 versions x source addresses x deprecations), 55% valid stream / 45% single-field mutations; for every opened bundle all remote/registry lookups and SourceForLocalPath over 17 path shapes (inside a package, aliases, '..' detours, outside, the root, relative); non-trivial = opened or refused for a directory-name reason; distinct by manifest"
+		rep.Rule = "manifest documents generated field-wise (format number, 0..3 packages over 18 directory names (one a string prefix of another) incl. '..', '.', '', names with separators, 10 address strings incl. invalid ones and two spellings of one package, metadata; 0..2 registry packages x 0..2 versions x source addresses x deprecations), 55% valid stream / 45% single-field mutations; for every opened bundle all remote/registry lookups, lookups of addresses derived with ResolveRelativeSource / ResolveRelativeFinalSource from the bundle's registry and remote sources and 16 relative paths with 0..8 leading '../' (oracle only), and SourceForLocalPath over 17 path shapes (inside a package, aliases, '..' detours, outside, the root, relative); non-trivial = opened or refused for a directory-name reason; distinct by manifest"
 		r := NewRng(cfg.Seed)
 		n := cfg.N
 		reqs := make([]string, n)
@@ -347,6 +376,109 @@ func init() {
 							answers = append(answers, X(lp))
 							if !within(root, lp) || lp == root {
 								fail(fmt.Sprintf("registry lookup %s@%s returns %s, not inside the bundle root", regStr, v, lp))
+							}
+						}
+					}
+				}
+				// lookup addresses that were not parsed but derived: a source of the bundle resolved against a
+				// local relative path with 0..8 leading "../" (more than registry sub-path + real-source
+				// sub-path + 1 levels) through ResolveRelativeSource / ResolveRelativeFinalSource. The
+				// resolution may refuse, the lookup may refuse; an answer lies inside the bundle root
+				// (seed C18-f: an unvalidated join carries "../" into a registry address). The set of
+				// derived addresses is a function of the manifest alone (exact replay).
+				{
+					inside := func(lp string) bool { return within(root, lp) && lp != root }
+					notInside := func(lp string) string {
+						if lp == root {
+							return "which is the bundle root itself, not a path inside it:"
+						}
+						return "outside the bundle root"
+					}
+					// per manifest at most four answers outside the root and two that are the root itself are
+					// reported (the outside ones first)
+					var outside, atRoot []string
+					fail := func(what string) {
+						if strings.Contains(what, "outside the bundle root") {
+							outside = append(outside, what)
+						} else {
+							atRoot = append(atRoot, what)
+						}
+					}
+					defer func() {
+						for k, what := range outside {
+							if k < 4 {
+								rep.AddOracle(OracleFailure{Property: "C18", Lane: "bundle", What: what, Input: in, ReqIdx: i + 1})
+							}
+						}
+						for k, what := range atRoot {
+							if k < 2 {
+								rep.AddOracle(OracleFailure{Property: "C18", Lane: "bundle", What: what, Input: in, ReqIdx: i + 1})
+							}
+						}
+					}()
+					derivCount := map[string]int{}
+					defer func() {
+						rep.mu.Lock()
+						for k, n := range derivCount {
+							rep.Distribution[k] += n
+						}
+						rep.mu.Unlock()
+					}()
+					derivRels := bundleDerivRels
+					for _, rp := range b.RegistryPackages() {
+						for _, v := range b.RegistryPackageVersions(rp) {
+							for _, sub := range []string{"", "a/b/c"} {
+								regStr := rp.String()
+								if sub != "" {
+									regStr += "//" + sub
+								}
+								rs, perr := sourceaddrs.ParseRegistrySource(regStr)
+								if perr != nil {
+									continue
+								}
+								for _, dr := range derivRels {
+									rel, loc := dr.rel, dr.loc
+									if res, err := sourceaddrs.ResolveRelativeSource(rs, loc); err != nil {
+										derivCount["derived-lookup:resolution-refused"]++
+									} else if rres, ok := res.(sourceaddrs.RegistrySource); ok {
+										derivCount["derived-lookup:registry"]++
+										if lp, err := b.LocalPathForRegistrySource(rres, v); err == nil && !inside(lp) {
+											fail(fmt.Sprintf("LocalPathForRegistrySource(%s, %s) = %s, %s %s; the address is ResolveRelativeSource(%s, %s)", rres, v, lp, notInside(lp), root, regStr, rel))
+										}
+									}
+									if res, err := sourceaddrs.ResolveRelativeFinalSource(rs.Versioned(v), loc); err != nil {
+										derivCount["derived-lookup:resolution-refused"]++
+									} else if fres, ok := res.(sourceaddrs.RegistrySourceFinal); ok {
+										derivCount["derived-lookup:registry-final"]++
+										if lp, err := b.LocalPathForFinalRegistrySource(fres); err == nil && !inside(lp) {
+											fail(fmt.Sprintf("LocalPathForFinalRegistrySource(%s) = %s, %s %s; the address is ResolveRelativeFinalSource(%s, %s)", fres, lp, notInside(lp), root, rs.Versioned(v), rel))
+										}
+										if lp, err := b.LocalPathForSource(fres); err == nil && !inside(lp) {
+											fail(fmt.Sprintf("LocalPathForSource(%s) = %s, %s %s; the address is ResolveRelativeFinalSource(%s, %s)", fres, lp, notInside(lp), root, rs.Versioned(v), rel))
+										}
+									}
+								}
+							}
+						}
+					}
+					for _, p := range b.RemotePackages() {
+						for _, sub := range []string{"m/n"} {
+							base := p.SourceAddr(sub)
+							for _, dr := range derivRels {
+								rel, loc := dr.rel, dr.loc
+								if res, err := sourceaddrs.ResolveRelativeSource(base, loc); err != nil {
+									derivCount["derived-lookup:resolution-refused"]++
+								} else if rres, ok := res.(sourceaddrs.RemoteSource); ok {
+									derivCount["derived-lookup:remote"]++
+									if lp, err := b.LocalPathForRemoteSource(rres); err == nil && !inside(lp) {
+										fail(fmt.Sprintf("LocalPathForRemoteSource(%s) = %s, %s %s; the address is ResolveRelativeSource(%s, %s)", rres, lp, notInside(lp), root, base, rel))
+									}
+								}
+								if res, err := sourceaddrs.ResolveRelativeFinalSource(base, loc); err == nil {
+									if lp, err := b.LocalPathForSource(res); err == nil && !inside(lp) {
+										fail(fmt.Sprintf("LocalPathForSource(%s) = %s, %s %s; the address is ResolveRelativeFinalSource(%s, %s)", res, lp, notInside(lp), root, base, rel))
+									}
+								}
 							}
 						}
 					}
